@@ -292,7 +292,9 @@ func runC06(c *core.Ctx) {
 				}
 				// the request whose data is written is the one whose channel is registered
 				ks := pv.Sources(cc.Args[1])
-				if !ssax.All(ks, func(s ssax.Src) bool { return s.Kind == "param" && len(s.Path) >= 2 && s.Path[0] == "[]" && s.Path[1] == "req" }) {
+				if !ssax.All(ks, func(s ssax.Src) bool {
+					return s.Kind == "param" && len(s.Path) >= 2 && s.Path[0] == "[]" && s.Path[1] == "req"
+				}) {
 					problems = append(problems, "the written key does not come from the request being registered: "+strings.Join(ssax.Strings(ks), ","))
 				}
 			}
